@@ -369,6 +369,8 @@ def canaries(chk, prog):
 
 
 def run(chk, prog, tier):
+    from sa import lints as _lints
+    _lints.domain_guard(chk, prog, refs=['ahrs/filters/fqa.py::FQA.estimate', 'ahrs/filters/aqua.py::AQUA.estimate', 'ahrs/filters/tilt.py::Tilt.estimate', 'ahrs/filters/tilt.py::Tilt._compute_all', 'ahrs/common/orientation.py::acc2q', 'ahrs/common/orientation.py::am2angles'])
     davenport(chk, prog)
     quest(chk, prog, tier)
     oleq(chk, prog)
